@@ -829,22 +829,31 @@ def check_type_gates(ctx):
         chained = any(n.kind == "call" and FnTypes.is_super_call(n.ast.func) and n.ast.func.attr == "_validate" for n in g.nodes)
         if chained:
             continue
-        gate = False
-        for t in g.nodes:
-            e = t.ast
-            if t.kind == "test" and isinstance(e, ast.Call) and isinstance(e.func, ast.Name) and e.func.id == "isinstance" and \
-                    isinstance(e.args[0], ast.Name) and e.args[0].id == vparam:
-                gate = True
-        # a path from entry to a normal return that takes only False edges of isinstance(value, ...) tests = wrong type accepted
-        def not_matching(a, b, lbl):
-            e = a.ast
-            if a.kind == "test" and isinstance(e, ast.Call) and isinstance(e.func, ast.Name) and e.func.id == "isinstance" and \
-                    isinstance(e.args[0], ast.Name) and e.args[0].id == vparam and lbl is True:
+        # specialised for "the value is of none of the types the validator tests for": every isinstance(value, ...) is False
+        # (also when the test is stored in a local flag first); no normal return may remain
+        from engine.specialize import Spec
+
+        def is_value(e, node, f=f, vparam=vparam):
+            if not isinstance(e, ast.Name):
                 return False
-            return True
-        p = g.path(g.entry, lambda n: n.kind == "return", may_raise=lambda n: False, edge_filter=not_matching) if gate else [g.entry]
-        ctx.ob("validator.type-gate", f, "%s._validate rejects values of the wrong type" % c.name, gate and p is None,
-               "a value matching none of the accepted types ends in raise" if gate and p is None else
+            if e.id == vparam:
+                srcs = value_sources(f, e, node)
+                return all(k == "param" for k, _ in srcs) if srcs else True
+            srcs = value_sources(f, e, node)
+            return bool(srcs) and all(k == "param" and p_ == vparam for k, p_ in srcs)
+        seen_gate = []
+
+        def decide(e, node):
+            if isinstance(e, ast.Call) and isinstance(e.func, ast.Name) and e.func.id == "isinstance" and len(e.args) == 2 and is_value(e.args[0], node):
+                seen_gate.append(e)
+                return False
+            return None
+        gate = any(isinstance(x, ast.Call) and isinstance(x.func, ast.Name) and x.func.id == "isinstance" and len(x.args) == 2
+                   and isinstance(x.args[0], ast.Name) and x.args[0].id == vparam for x in ast.walk(f.node))
+        sp = Spec(an, f, decide)
+        accepted = sp.normal_returns() or sp.falls_off()
+        ctx.ob("validator.type-gate", f, "%s._validate rejects values of the wrong type" % c.name, gate and not accepted,
+               "a value matching none of the accepted types ends in raise" if gate and not accepted else
                "%s._validate %s: a value of the wrong type is handed on / stored" % (c.name, "has no type test" if not gate else
                                                                                      "can return without any isinstance(value, ...) test having matched"))
 
